@@ -89,8 +89,9 @@ static bool specFromJson(const std::string& txt, RunSpec& s, std::string& sig, s
 
 // ------------------------------------------------------------------ crash / hang reporting
 static volatile uint64_t cur_seed = 0; static volatile long cur_index = -1; static const char* cur_phase = "search";
+static volatile int tainted = 0;   // a violation was already found in this process: later crashes may be after-effects of abandoned, memory-unsafe runs
 static void crashHandler(int sig) {
-  char b[200]; int n = snprintf(b, sizeof b, "\nCRASH signal=%d index=%ld seed=%llu phase=%s\n", sig, (long)cur_index, (unsigned long long)cur_seed, cur_phase);
+  char b[200]; int n = snprintf(b, sizeof b, "\n%s signal=%d index=%ld seed=%llu phase=%s\n", tainted ? "CRASH-TAINTED" : "CRASH", sig, (long)cur_index, (unsigned long long)cur_seed, cur_phase);
   (void)!write(1, b, n); _exit(3);
 }
 static void installHandlers() {
@@ -183,7 +184,7 @@ static std::string confirmAndMinimise(const Harness& h, const RunSpec& spec, con
     return "";
   }
   cur_phase = "shrink";
-  Shrinker sh{h, r.cls, shrinkBudget, 0, false};
+  Shrinker sh{h, r.cls, shrinkBudget, 0, true};   // candidates run in a forked child: memory-unsafe mutants may crash on shrunk inputs
   RunSpec m = sh.minimise(rs);
   cur_phase = "final";
   Result fin = h.execute(m, true);
@@ -286,6 +287,7 @@ int main(int argc, char** argv, const Harness& h) {
     for (auto& vr : viol) {
       if (reported.count(vr.second.cls) || cands >= maxCand) continue;
       reported.insert(vr.second.cls);
+      tainted = 1;
       alarm(600);
       std::string status;
       std::string path = confirmAndMinimise(h, vr.first, vr.second, outdir, shrinkBudget, &status);
